@@ -23,6 +23,7 @@ and the removal paths are decided per run by R1, not proved.
 import Spade.Abs
 import Spade.Spec
 import Spade.Proofs.InsertInv
+import Spade.Proofs.RemoveInv
 namespace Spade
 open AState
 
@@ -141,5 +142,28 @@ theorem C05_model_keeps_handles (s : St) (p : Pt) (d hint : Nat) (t : St) (v : N
 /-- non-vacuity -/
 example : (AState.empty.insert ⟨1, 2⟩ 7).2 = 0 ∧ ((AState.empty.insert ⟨1, 2⟩ 7).1.insert ⟨1, 2⟩ 9).2 = 0 ∧
     (((AState.empty.insert ⟨1, 2⟩ 7).1.insert ⟨1, 2⟩ 9).1.remove 0).2 = 9 := by decide +kernel
+
+
+/-! ### on the removal model (`Spade/Algo/Remove.lean`, compared index for index with `remove` of a
+plain triangulation, every family, clause `C11:model`) -/
+
+/-- `remove` deletes exactly the given vertex; the vertex with the highest index moves into the
+freed index; every other vertex keeps its handle, position and payload — on every path of
+`remove_core` (degenerate, hull vertex, inner vertex, any number of flips) -/
+theorem C05_model_remove_vertices (s t : St) (v : Nat) (hv : v < s.nV) (hsz : s.data.size = s.nV)
+    (h : s.removeM v = some t) :
+    t.nV = s.nV - 1 ∧
+    (∀ j, j < s.nV - 1 → t.pos[j]? = if j = v then s.pos[s.nV - 1]? else s.pos[j]?) ∧
+    (∀ j, j < s.nV - 1 → t.data[j]? = if j = v then s.data[s.nV - 1]? else s.data[j]?) := by
+  obtain ⟨h1, h2⟩ := St.removeM_vertices s t v hsz h
+  have p := St.swapRemoveA_spec s.pos v hv
+  have d := St.swapRemoveA_spec s.data v (by rw [hsz]; exact hv)
+  unfold St.nV at *
+  rw [h1, h2]
+  refine ⟨p.1, p.2, ?_⟩
+  intro j hj
+  have := d.2 j (by rw [hsz]; exact hj)
+  rw [hsz] at this
+  exact this
 
 end Spade
